@@ -123,7 +123,34 @@ func (a *IntervalAnalyzer) evalAt(v ssa.Value, ctx *ssa.BasicBlock, depth int) I
 		return top()
 	}
 	r := a.base(v, ctx, depth)
+	// arithmetic on a narrow type wraps: a result outside the type's range only
+	// tells us the value is somewhere in that range
+	if _, isBin := v.(*ssa.BinOp); isBin && r.Known {
+		if tr := narrowRange(v.Type()); tr.Known && (r.Lo < tr.Lo || r.Hi > tr.Hi) {
+			r = tr
+		}
+	}
 	return a.refine(v, r, ctx)
+}
+
+func narrowRange(t types.Type) Interval {
+	if b, ok := t.Underlying().(*types.Basic); ok {
+		switch b.Kind() {
+		case types.Uint8:
+			return Interval{0, 255, true}
+		case types.Uint16:
+			return Interval{0, 65535, true}
+		case types.Uint32:
+			return Interval{0, 4294967295, true}
+		case types.Int8:
+			return Interval{-128, 127, true}
+		case types.Int16:
+			return Interval{-32768, 32767, true}
+		case types.Int32:
+			return Interval{-2147483648, 2147483647, true}
+		}
+	}
+	return Interval{}
 }
 
 func (a *IntervalAnalyzer) base(v ssa.Value, ctx *ssa.BasicBlock, depth int) Interval {
@@ -206,8 +233,8 @@ func (a *IntervalAnalyzer) base(v ssa.Value, ctx *ssa.BasicBlock, depth int) Int
 				return Interval{0, l.Lo, true}
 			}
 		case token.ADD:
-			if l.Known && r.Known && !addOverflows(l.Hi, r.Hi) && !addOverflows(l.Lo, r.Lo) {
-				return Interval{l.Lo + r.Lo, l.Hi + r.Hi, true}
+			if l.Known && r.Known {
+				return Interval{satAdd(l.Lo, r.Lo), satAdd(l.Hi, r.Hi), true}
 			}
 		case token.SUB:
 			if l.Known && r.Known {
@@ -237,6 +264,16 @@ func (a *IntervalAnalyzer) base(v ssa.Value, ctx *ssa.BasicBlock, depth int) Int
 		return typeRange(x.Type())
 	}
 	return typeRange(v.Type())
+}
+
+func satAdd(a, b int64) int64 {
+	if b > 0 && a > math.MaxInt64-b {
+		return math.MaxInt64
+	}
+	if b < 0 && a < math.MinInt64-b {
+		return math.MinInt64
+	}
+	return a + b
 }
 
 func addOverflows(a, b int64) bool {
@@ -351,16 +388,22 @@ func (a *IntervalAnalyzer) applyCmp(v ssa.Value, r Interval, cmp *ssa.BinOp, tak
 		}
 	}
 	if !r.Known {
-		// comparisons alone can establish a bound for unsigned values
+		// comparisons alone can establish (one-sided) bounds
+		lo, hi := int64(math.MinInt64), int64(math.MaxInt64)
 		if isUnsignedT(v.Type()) {
-			switch op {
-			case token.LSS:
-				r = Interval{0, k - 1, true}
-			case token.LEQ:
-				r = Interval{0, k, true}
-			case token.EQL:
-				r = exactly(k)
-			}
+			lo = 0
+		}
+		switch op {
+		case token.LSS:
+			return Interval{lo, k - 1, true}
+		case token.LEQ:
+			return Interval{lo, k, true}
+		case token.EQL:
+			return exactly(k)
+		case token.GTR:
+			return Interval{k + 1, hi, true}
+		case token.GEQ:
+			return Interval{k, hi, true}
 		}
 		return r
 	}
